@@ -24,6 +24,7 @@ import (
 	"sort"
 	"strconv"
 	"strings"
+	"sync/atomic"
 	"time"
 
 	"golang.zx2c4.com/wireguard/device"
@@ -811,6 +812,123 @@ func stallScenario(cfg [3]int, branch string, items int) Case {
 	return c
 }
 
+// ---------------------------------------------------------------- two goroutines waiting on an exhausted pool
+
+func waitersInGet() int {
+	buf := make([]byte, 8<<20)
+	n := runtime.Stack(buf, true)
+	c := 0
+	for _, g := range strings.Split(string(buf[:n]), "\n\n") {
+		if strings.Contains(g, "device.(*WaitPool).Get") {
+			c++
+		}
+	}
+	return c
+}
+
+// twoWaiters: bind batch 4, one receive function, message-buffer pool = idle baseline + 4.  The sequential receiver
+// is held inside tun.Write (WriteGate) with a TWO-element batch; two more datagrams exhaust the pool; a fifth datagram
+// parks the receive routine in GetMessageBuffer and an outbound TUN packet parks the TUN reader there as well.  Then
+// tun.Write is released: two buffers come back back to back and BOTH waiters must go on - all five inbound packets
+// reach the TUN and the outbound packet reaches the bind within the watchdog.  (Quiescence alone cannot see a waiter
+// that sleeps although a buffer is free: it is parked.)
+func twoWaiters(round int) Case {
+	cfg := [3]int{1, 4, 1}
+	old := device.VerifPoolMax
+	device.VerifPoolMax = 4 + 4 + 4
+	defer func() { device.VerifPoolMax = old }()
+	max := device.VerifPoolMax
+	c := Case{Plan: []string{fmt.Sprintf("twowaiters %d", round)}, Cfg: cfg, Gen: "stall:two-waiters", PoolMax: max}
+	r, err := newRunner(cfg)
+	if err != nil {
+		c.Stuck = err.Error()
+		return c
+	}
+	for _, a := range []string{"add 1 ep", "up", "net h init 1", "net t 1 -1 ka", "net t 1 -1 ok", "tun r1"} {
+		if !r.do(a) {
+			c.Stuck = r.stuck
+			return c
+		}
+	}
+	ss := r.sessionOf(1, -1)
+	if ss == nil || r.w.Dev.VerifPoolCounts()[2] != 8 {
+		c.Skipped = 1 // precondition not met: inconclusive round
+		r.call("Close", func() { r.w.Dev.Close() })
+		return c
+	}
+	p := r.peers[1]
+	inner := ref.Pad(ref.IPv4([4]byte{10, 0, 1, 2}, [4]byte{10, 9, 9, 9}, 60, 3))
+	mk := func() sim.Dgram { return sim.Dgram{From: p.addr, Data: ss.s.Next(inner)} }
+	gate := make(chan struct{})
+	blocked := make(chan struct{})
+	var first atomic.Bool
+	r.w.Tun.TakeWritten()
+	r.w.Bind.TakeSent()
+	r.w.Tun.WriteGate = func(bufs [][]byte) {
+		if first.CompareAndSwap(false, true) {
+			close(blocked)
+			<-gate
+		}
+	}
+	waitUntil := func(d time.Duration, f func() bool) bool {
+		t0 := time.Now()
+		for time.Since(t0) < d {
+			if f() {
+				return true
+			}
+			time.Sleep(200 * time.Microsecond)
+		}
+		return false
+	}
+	abandon := func() Case {
+		select {
+		case <-gate:
+		default:
+			close(gate)
+		}
+		c.Skipped = 1
+		r.w.Settle()
+		r.call("Close", func() { r.w.Dev.Close() })
+		return c
+	}
+	r.w.Bind.Inject(mk(), mk())
+	select {
+	case <-blocked:
+	case <-time.After(3 * time.Second):
+		return abandon()
+	}
+	r.w.Bind.Inject(mk(), mk())
+	if !waitUntil(2*time.Second, func() bool { return r.w.Dev.VerifPoolCounts()[2] == max }) {
+		return abandon()
+	}
+	r.w.Bind.Inject(mk())
+	r.w.Tun.Inject(ref.IPv4([4]byte{10, 9, 9, 9}, [4]byte{10, 0, 1, 77}, 90, 1))
+	if !waitUntil(2*time.Second, func() bool { return waitersInGet() >= 2 }) {
+		return abandon()
+	}
+	close(gate)
+	written, sent := 0, 0
+	ok := waitUntil(4*time.Second, func() bool {
+		written += len(r.w.Tun.TakeWritten())
+		for _, s := range r.w.Bind.TakeSent() {
+			if len(s.Data) > 32 && s.Data[0] == ref.TypeTransport {
+				sent++
+			}
+		}
+		return written >= 5 && sent >= 1
+	})
+	c.Items = written*10 + sent
+	if !ok {
+		c.Stall = fmt.Sprintf("two-waiters(tun-writes=%d/5,outbound=%d/1,waiting=%d)", written, sent, waitersInGet())
+		c.Stall = "two-waiters"
+		return c // the device is wedged: Close would hang on the TUN reader
+	}
+	r.w.Settle()
+	r.call("Close", func() { r.w.Dev.Close() })
+	c.Stuck = r.stuck
+	return c
+}
+
 // ---------------------------------------------------------------- plans
 
 var configs = [][3]int{{1, 1, 2}, {4, 2, 1}, {2, 8, 2}, {3, 3, 1}}
@@ -940,6 +1058,13 @@ func writeShard(path string, cases []Case) error {
 }
 
 func runCase(c Case, gen string) Case {
+	if len(c.Plan) == 1 && strings.HasPrefix(c.Plan[0], "twowaiters") {
+		rc := twoWaiters(0)
+		if gen != "" {
+			rc.Gen = gen
+		}
+		return rc
+	}
 	if len(c.Plan) == 1 && strings.HasPrefix(c.Plan[0], "stall ") {
 		f := strings.Fields(c.Plan[0])
 		n, _ := strconv.Atoi(f[2])
@@ -961,6 +1086,7 @@ func main() {
 	n := flag.Int("n", 60, "number of random scenarios")
 	length := flag.Int("len", 60, "actions per random scenario")
 	stall := flag.Int("stall", 300, "items per stall scenario (0 = none)")
+	waiters := flag.Int("waiters", 4, "rounds of the two-waiters-on-an-exhausted-pool scenario")
 	poolMax := flag.Uint("poolmax", 4096, "bound of the five pools in the exact-count scenarios")
 	shards := flag.Int("shards", 16, "case files")
 	out := flag.String("out", "out/C20", "output directory")
@@ -1022,6 +1148,9 @@ func main() {
 			cases = append(cases, runPlan(configs[r.Intn(len(configs))], randomPlan(r, *length), "random"))
 		}
 		if *stall > 0 {
+			for i := 0; i < *waiters; i++ {
+				cases = append(cases, twoWaiters(i))
+			}
 			for i, b := range stallBranches {
 				cases = append(cases, stallScenario(configs[(i+int(*seed))%2], b, *stall))
 			}
